@@ -25,6 +25,7 @@ RULE = ("trees: every shape up to depth 2 / fan-out 2 over {file, empty file, em
 ASSUMPTIONS = ["documented placement rule: destination/source.name/... by default, destination/... with write_into",
                "names are plain (C08 covers metacharacters)"]
 REQUIRED_MONITORS = ["upload_tree", "download_tree", "recursive_list", "remove_tree"]
+ANCHOR_FUNCTIONS = ['client.py:Client.upload', 'client.py:Client.download', 'client.py:Client.remove', 'client.py:Client.list.<locals>.AsyncLister.__anext__']
 EXHAUSTIVE = {"quick": False, "thorough": False}
 
 
